@@ -213,6 +213,13 @@ add("C08", "fixed", "outcome-altered:output_stream_limit",
     "'a\\r\\nb' rendered 'a\\nb' under a limit of 1000",
     [{"source": "a\r\nb\rc{{ x }}", "partials": {}, "data": V.enc({"x": "\r\n"}), "only": ["output_stream_limit"]}], "c3f8aff")
 
+# ----------------------------------------------------------------------------- C24 fixed
+add("C24", "fixed", "conc:not-linearizable",
+    "ThreadSafeLRUCache.__len__ did not take the lock: a thread calling len() while another thread's insertion was evicting the least recently used entry saw the transient state "
+    "(capacity 1, key 'a' present, concurrent 'set c': len() returned 0, which no sequential order of the recorded operations explains). Found by the WGL linearizability checker "
+    "on a 3-thread x 5-operation history under yield injection (schedules are not replayable, so no pinned witness).",
+    [], "b8e040b")
+
 if __name__ == "__main__":
     # further entries are appended by tools/mkfindings.py from triaged replay files and kept in findings_extra.json
     extra_path = os.path.join(VERIF, "tools", "findings_extra.json")
